@@ -1,4 +1,5 @@
 import Proofs.Drex
+import Proofs.NoSlip
 import ModelR.Solver
 import Proofs.Solver
 import Properties.C09
@@ -68,14 +69,6 @@ theorem null_regimes_zero (regime phase fabric : Int) (h : regime = 0 ∨ regime
 noncomputable def nullRhs (L : Mat3) (n : ℕ) (y : List ℝ) : List ℝ :=
   mat3ToList (mmul L (extractVars n y).1) ++ zerosR (n * 10)
 
-/-- **a vanishing strain rate (in particular L = 0) gives zero texture rates**, whatever the
-regime, phase, fabric and parameters; the F block is still `L·F` -/
-theorem zero_strain_rate_zero_rates (phase fabric : Int) (n : ℕ) (mp : MParams) (env : RhsEnv)
-    (y : List ℝ) (phi : ℝ) (hphi : lookupFraction mp.assemblage mp.fractions phase = .ok phi)
-    (he : env.emax = 0) :
-    evalRhs phase fabric n mp env y = .ok (nullRhs env.L n y) := by
-  simp [evalRhs, hphi, he, nullRhs]
-
 theorem flatMap_zero3 (A : List Mat3) :
     (A.map (fun _ => zero3)).flatMap mat3ToList = zerosR (A.length * 9) := by
   induction A with
@@ -86,23 +79,126 @@ theorem flatMap_zero3 (A : List Mat3) :
     simp only [List.map_cons, List.flatMap_cons, ih, List.length_cons, zerosR, h9]
     rw [← List.replicate_add]; congr 1; omega
 
+theorem zipWith_const_zero (f : List ℝ) (A : List Mat3) (h : A.length = f.length) :
+    List.zipWith (fun _ _ => (0:ℝ)) f A = f.map (fun _ => 0) := by
+  induction f generalizing A with
+  | nil => simp
+  | cons x xs ih =>
+    cases A with
+    | nil => simp at h
+    | cons a as => simp only [List.zipWith_cons_cons, List.map_cons, ih as (by simpa using h)]
+
+/-- the solver without any flow (`D = 0`, `L = 0`; `spin = 0` where the diffusion regime reads it): whenever it accepts
+the ordinals, every rate is zero -/
+theorem derivatives_no_flow (regime phase fabric : Int) (A : List Mat3) (f : List ℝ) (spin : Mat3) (q : DParams)
+    (hs : regime = 1 → spin = zero3) (hlen : A.length = f.length) (ad : List Mat3) (fd : List ℝ)
+    (h : derivatives regime phase fabric A f zero3 zero3 spin q = .ok (ad, fd)) :
+    ad = A.map (fun _ => zero3) ∧ fd = f.map (fun _ => 0) := by
+  have hz : ∀ damp : ℝ, ∀ crss : Crss, dislocationRates damp crss phase A f zero3 zero3 q
+      = (A.map (fun _ => zero3), f.map (fun _ => 0)) := by
+    intro damp crss
+    rw [dislocationRates_zeroD, zipWith_const_zero f A hlen]
+    congr 1
+    apply List.map_congr_left; intro a _
+    rw [noSlipRotation_zero]; funext i j; simp [smul3, zero3]
+  have hnil : A.isEmpty = true → ((([] : List Mat3), ([] : List ℝ)) = (A.map (fun _ => zero3), f.map (fun _ => 0))) := by
+    intro hA
+    have : A = [] := by simpa using hA
+    subst this
+    have : f = [] := by simpa using hlen.symm
+    subst this; rfl
+  have hdis : ∀ damp : ℝ, (match getCrss phase fabric with
+        | .error e => if A.isEmpty then (.ok ([], []) : Except Err (List Mat3 × List ℝ)) else .error e
+        | .ok crss => .ok (dislocationRates damp crss phase A f zero3 zero3 q)) = .ok (ad, fd) →
+      ad = A.map (fun _ => zero3) ∧ fd = f.map (fun _ => 0) := by
+    intro damp h
+    cases hc : getCrss phase fabric with
+    | error e =>
+      rw [hc] at h; simp only at h
+      by_cases hA : A.isEmpty = true
+      · rw [if_pos hA] at h
+        injection h with h
+        have := hnil hA
+        rw [h] at this
+        injection this with ha hf; exact ⟨ha, hf⟩
+      · rw [if_neg hA] at h; cases h
+    | ok crss =>
+      rw [hc] at h; simp only at h
+      injection h with h; rw [hz] at h; injection h with ha hf; exact ⟨ha.symm, hf.symm⟩
+  by_cases h07 : regime = 0 ∨ regime = 7
+  · rw [null_regimes_zero _ _ _ h07] at h
+    injection h with h; injection h with ha hf; exact ⟨ha.symm, hf.symm⟩
+  by_cases h1 : regime = 1
+  · simp only [derivatives, if_neg h07, if_pos h1] at h
+    injection h with h; injection h with ha hf
+    rw [hs h1] at ha; exact ⟨ha.symm, hf.symm⟩
+  by_cases h235 : regime = 2 ∨ regime = 3 ∨ regime = 5
+  · rw [unsupported_rejected _ _ _ h235] at h; cases h
+  by_cases h4 : regime = 4
+  · simp only [derivatives, if_neg h07, if_neg h1, if_neg h235, if_pos h4] at h
+    exact hdis 1 h
+  by_cases h6 : regime = 6
+  · simp only [derivatives, if_neg h07, if_neg h1, if_neg h235, if_neg h4, if_pos h6] at h
+    exact hdis 0.3 h
+  · simp only [derivatives, if_neg h07, if_neg h1, if_neg h235, if_neg h4, if_neg h6] at h
+    cases h
+
+/-- **a zero velocity gradient gives zero texture rates** in every accepted evaluation of the right-hand side, whatever the
+regime, phase, fabric and parameters; the F block is still `L·F` (= 0). `emax = 0` and `spin = 0` are what the externals
+(`eigvalsh`, polar decomposition of the zero matrix) return for `L = 0`; the rejected ordinals are still rejected
+(`evalRhs_ok` goes through `derivatives`), which the unrepaired early return did not do. -/
+theorem zero_L_zero_rates (phase fabric : Int) (n : ℕ) (mp : MParams) (env : RhsEnv) (y out : List ℝ)
+    (hL : env.L = zero3) (he : env.emax = 0) (hspin : env.regime = 1 → env.spin = zero3)
+    (hA : (extractVars n y).2.A.length = n) (hf : (extractVars n y).2.f.length = n)
+    (h : evalRhs phase fabric n mp env y = .ok out) :
+    out = nullRhs env.L n y := by
+  obtain ⟨phi, _, ad, fd, hd, rfl⟩ := evalRhs_ok phase fabric n mp env y out h
+  have hD : ndD env.L (rhsScale env) = zero3 := by
+    funext i j; simp [ndD, hL, zero3]
+  have hLz : ndL env.L (rhsScale env) = zero3 := by
+    funext i j; simp [ndL, hL, zero3]
+  rw [hD, hLz] at hd
+  obtain ⟨rfl, rfl⟩ := derivatives_no_flow env.regime phase fabric _ _ env.spin _ hspin (by rw [hA, hf]) ad fd hd
+  have hz : ∀ k : ℕ, (zerosR k).map (· * rhsScale env) = zerosR k := by
+    intro k; simp [zerosR]
+  have hz2 : ((extractVars n y).2.f.map (fun _ => (0:ℝ))) = zerosR n := by
+    rw [List.map_const', hf]; rfl
+  simp only [flatMap_zero3, hA, hz, hz2, nullRhs]
+  simp only [zerosR, List.append_assoc, ← List.replicate_add]
+  have h10 : n * 9 + n = n * 10 := by omega
+  rw [h10]
+
+/-- **an unsupported or out-of-range regime is rejected by the right-hand side whatever the flow** (also for `L = 0`,
+where the unrepaired code returned numbers) -/
+theorem rhs_rejects_bad_regime (phase fabric : Int) (n : ℕ) (mp : MParams) (env : RhsEnv) (y : List ℝ)
+    (hreg : env.regime = 2 ∨ env.regime = 3 ∨ env.regime = 5 ∨ env.regime < 0 ∨ 7 < env.regime) :
+    ∃ e, evalRhs phase fabric n mp env y = .error e := by
+  cases hr : evalRhs phase fabric n mp env y with
+  | error e => exact ⟨e, rfl⟩
+  | ok out =>
+    exfalso
+    obtain ⟨phi, _, ad, fd, hd, _⟩ := evalRhs_ok phase fabric n mp env y out hr
+    rcases hreg with h | h | h | h | h
+    · rw [unsupported_rejected _ _ _ (Or.inl h)] at hd; cases hd
+    · rw [unsupported_rejected _ _ _ (Or.inr (Or.inl h))] at hd; cases hd
+    · rw [unsupported_rejected _ _ _ (Or.inr (Or.inr h))] at hd; cases hd
+    · rw [out_of_range_rejected _ _ _ (Or.inl h)] at hd; cases hd
+    · rw [out_of_range_rejected _ _ _ (Or.inr h)] at hd; cases hd
+
 /-- **the null regimes give zero texture rates in the solver right-hand side** -/
 theorem null_regime_rhs (phase fabric : Int) (n : ℕ) (mp : MParams) (env : RhsEnv)
     (y : List ℝ) (phi : ℝ) (hphi : lookupFraction mp.assemblage mp.fractions phase = .ok phi)
     (hreg : env.regime = 0 ∨ env.regime = 7)
     (hA : (extractVars n y).2.A.length = n) (hf : (extractVars n y).2.f.length = n) :
     evalRhs phase fabric n mp env y = .ok (nullRhs env.L n y) := by
-  by_cases he : env.emax = 0
-  · exact zero_strain_rate_zero_rates phase fabric n mp env y phi hphi he
-  · have hz : ∀ k : ℕ, (zerosR k).map (· * env.emax) = zerosR k := by
-      intro k; simp [zerosR]
-    have hz2 : ((extractVars n y).2.f.map (fun _ => (0:ℝ))) = zerosR n := by
-      rw [List.map_const', hf]; rfl
-    simp only [evalRhs, hphi, Req_iff, he, if_false,
-      null_regimes_zero env.regime phase fabric hreg, flatMap_zero3, hA, hz, hz2, nullRhs]
-    simp only [zerosR, List.append_assoc, ← List.replicate_add]
-    have h10 : n * 9 + n = n * 10 := by omega
-    rw [h10]
+  have hz : ∀ (k : ℕ) (e : ℝ), (zerosR k).map (· * e) = zerosR k := by
+    intro k e; simp [zerosR]
+  have hz2 : ((extractVars n y).2.f.map (fun _ => (0:ℝ))) = zerosR n := by
+    rw [List.map_const', hf]; rfl
+  simp only [evalRhs, hphi, null_regimes_zero env.regime phase fabric hreg, flatMap_zero3, hA, hz, hz2, nullRhs]
+  simp only [zerosR, List.append_assoc, ← List.replicate_add]
+  have h10 : n * 9 + n = n * 10 := by omega
+  rw [h10]
 
 /-- **a failed update leaves the stored history untouched** (nothing is appended unless the
 solver loop ran to completion) -/
